@@ -175,7 +175,7 @@ func paObj(f *pki.Facts, needLDS bool) map[string]any {
 		}
 		certs = append(certs, map[string]any{"v": within(st, cf.NotBefore, cf.NotAfter, cf.ValidityParseable && cf.Parseable), "unknownCrit": cf.UnknownCriticalExt || !cf.Parseable,
 			"hasKU": cf.HasKeyUsage && !cf.KeyUsageMalformed, "digSig": cf.KUDigitalSignature, "ekuOK": true, "hasAKI": cf.AKI != nil,
-			"aki": oneBased(cf.AKIMatches), "by": oneBased(cf.ChainsTo)})
+			"aki": oneBased(cf.AKIMatches), "by": oneBased(append(append([]int{}, cf.ChainsTo...), cf.ChainsToLenient...))})
 	}
 	if signers != nil {
 		o["signers"] = signers
